@@ -90,7 +90,15 @@ func edgeReachesInstr(e Edge, pred func(ssa.Instruction) bool) ssa.Instruction {
 
 // fieldWrites lists instructions in fn that write field `name` of `owner`
 // (stores to the field, map updates / deletes / heap pushes through it).
-func fieldWrites(fn *ssa.Function, owner, name string) []ssa.Instruction {
+func fieldWrites(root *ssa.Function, owner, name string) []ssa.Instruction {
+	var out []ssa.Instruction
+	for _, fn := range funcAndHelpers(root) {
+		out = append(out, fieldWrites1(fn, owner, name)...)
+	}
+	return out
+}
+
+func fieldWrites1(fn *ssa.Function, owner, name string) []ssa.Instruction {
 	var out []ssa.Instruction
 	for _, b := range fn.Blocks {
 		for _, in := range b.Instrs {
